@@ -74,6 +74,7 @@ def make_plan(seed: int, tier: str) -> dict:
     cfg["factor"] = st.choice([0.1, 0.5, 0.01, 0.9, round(st.uniform(0.01, 0.99), 2)])
     n_steps = st.randint(6, 16 if tier == "quick" else 40)
     steer = st.choice(["always", "never", "alternate", "random", "random", "natural"])
+    zero_start = st.randint(1, 6) if st.bernoulli(0.12) else 0
     steps = []
     for i in range(n_steps):
         is_ind = st.bernoulli(0.5)
@@ -88,6 +89,8 @@ def make_plan(seed: int, tier: str) -> dict:
         else:
             dec = "natural"
         steps.append({"sel": st.randint(0, 3), "ind": is_ind, "t_inv": 1.0, "proposal": "ordinary", "decision": dec, "foreign": "none", "order": "seeded"})
+    if zero_start:
+        cfg["zero_start_component"] = zero_start
     return {"seed": seed, "tier": tier, "engine": "fitsim_c19", "type": "scale", "world": cfg, "steps": steps}
 
 
@@ -263,7 +266,25 @@ def run_temperature(plan, out, log):
 def run_scale(plan, out, log):
     C = out["counters"]
     cfg = plan["world"]
-    world = stepsim.StepWorld(cfg, log, C)
+    from leaspy.exceptions import LeaspyInputError
+
+    try:
+        world = stepsim.StepWorld(cfg, log, C)
+    except LeaspyInputError as e:
+        if cfg.get("zero_start_component") and "should be positive" in str(e):
+            # a start value without a usable default scale is refused before anything runs: consistent with the envelope
+            C["probe.degenerate_start_refused"] += 1
+            out["nontrivial"] = True
+            out["keys"].add("run:zero-start-refused:" + cfg["kind"])
+            out["sample"] = {"type": "scale", "world": {k: v for k, v in cfg.items() if k != "gseed"}, "note": "refused: zero component in a start value"}
+            return
+        raise
+    # scales as constructed: positive and finite, component by component
+    for nm, smp in world.algo.samplers.items():
+        std = smp.std
+        if not bool(torch.isfinite(std).all()) or not bool((std > 0).all()):
+            violation(out, "scale_envelope", "scale_not_positive_finite:at_construction", f"{nm}: std = {std.reshape(-1)[:6].tolist()}")
+            return
     L = cfg["ahl"]
     lo, hi = cfg["bounds"]
     f = cfg["factor"]
